@@ -4,6 +4,7 @@ CONSTANTS
   Chunks = {1, 2, 9, 10, 100}
   RunLists <- MC_RunLists
   Orders <- MC_Orders
+  MaxGen = 2
   Bug = "stale"
 INVARIANT AllPixelsInOrder
 INVARIANT RunsEncoding
@@ -12,4 +13,5 @@ INVARIANT PixMeta
 INVARIANT RunIdsOneBased
 INVARIANT SharedObject
 INVARIANT RoundTrip
+INVARIANT InputsUntouched
 CHECK_DEADLOCK FALSE
